@@ -24,6 +24,9 @@ type Prop struct {
 	QuickSecs, ThoroughSecs int
 	// RunsPerJob: how many run indices one worker job covers.
 	RunsPerJob int
+	// HangSecs > 0: the property forbids non-termination (C13). A worker that spends more than 3*HangSecs on one
+	// job is killed, the run it had logged is re-executed alone with a HangSecs budget, twice; reproduced => "hang".
+	HangSecs int
 	// GlobalRand: run every program in a subtest with testing/cryptotest.SetGlobalRandom(t, Cfg["grand"]+1).
 	GlobalRand bool
 	// Init, if set, runs once per worker process before any run (model self-tests, fixtures).
